@@ -611,6 +611,7 @@ func init() {
 		"(context.backgroundCtx).Err":  func(e *Engine, fn *ssa.Function, a []Value) Value { return IfaceV{} },
 	}
 
+	intrinsics["(*"+pkgPath[:len(pkgPath)-1]+".receivePayloadQueue).getGapAckBlocksString"] = opaqueString
 	prefixIntrinsics = []prefixIntr{
 		{"(*strings.Builder).String", opaqueString},
 		{"(*strings.Builder).", nop},
